@@ -1048,8 +1048,7 @@ unit(name="SrcMyersTbLoop", props="property C10", file="src/pattern_matching/mye
                                                                recv_args=H_ALL, recv_outs=["h.left_state.dist"], args=[], ret="bool"),
                             "h.finished": dict(lean=TBSH + "finished", extra=["w", "wd"], recv_args=H_ALL, args=[], ret="bool"),
                             "h.move_to_left": dict(lean="RbV.Gen.SrcMyersTbShort2.moveToLeft", extra=["w", "wd"], recv_args=H_ALL2,
-                                                   recv_outs=["h.state", "h.left_state", "h.states_iter"], args=[], ret=None)},
-                     theorem="RbV.Thm.GenSrcMyersTbLoop.tracebackAt_eq_model")])
+                                                   recv_outs=["h.state", "h.left_state", "h.states_iter"], args=[], ret=None)})])
 
 
 # ================================================================================================== self-test / CLI
